@@ -463,7 +463,7 @@ class StreamEngine(engines.HistEngine):
             enum_stats = dict(zip(["schedules", "configs", "exhaustive_configs", "sampled_configs", "corpus_histories",
                                    "corpus_replayed_verbatim", "corpus_schedules"], map(int, m.groups()))) if m else {}
             obligations = n_stmt + (INSTANCE_THEOREMS if gen["ok"] else 0)
-            discharged = (n_qed if proof_ok else 0) + (INSTANCE_THEOREMS if inst_ok else 0)
+            discharged = (n_stmt if proof_ok else 0) + (INSTANCE_THEOREMS if inst_ok else 0)
             if not (proof_ok and inst_ok):
                 discharged = min(discharged, obligations - 1)
             cov = {
